@@ -201,3 +201,107 @@ package proto
 //@   requires b != nil
 //@   modifies b.Buf
 //@   ensures appendOnly(b, len(v)) && forall j in 0..len(v) :: b.Buf[old(len(b.Buf)) + j] == v[j]
+
+// ---------------------------------------------------------------------------
+// Reader primitives, byte level (C01, C06, C07, C08, C17).
+// The ghost stream (in, pos, end, failed) of a *Reader is that of its current
+// data source r.data (see /verif/spec/io.spec).
+
+//@ delegate (Reader) data
+//@ valid (r *Reader): r != nil ==> r.data != nil && r.b != nil
+
+//@ -- rdOK: the stream effects of reading exactly n bytes, or failing
+//@ spec func rdOK(r Val, err Val, n Int) Bool = (err == nil ==> r.pos == old(r.pos) + n && r.failed == old(r.failed)) && (err != nil ==> r.failed) && (old(r.pos) + n > r.end ==> err != nil) && old(r.pos) <= r.pos && r.pos <= r.end
+//@ -- rdAny: the stream effects of reading some bytes, or failing
+//@ spec func rdAny(r Val, err Val) Bool = (err == nil ==> r.failed == old(r.failed)) && (err != nil ==> r.failed) && old(r.pos) <= r.pos && r.pos <= r.end
+
+//@ contract (b *Buffer) Ensure(n) props(C01,C06,C07,C08,C17)
+//@   requires b != nil && 0 <= n
+//@   modifies b.Buf
+//@   ensures len(b.Buf) == n
+//@ contract (b *Buffer) Reset() props(C01,C16,C17)
+//@   requires b != nil
+//@   modifies b.Buf
+//@   ensures len(b.Buf) == 0
+
+//@ contract (r *Reader) Read(p) (n, err) props(C07,C08)
+//@   requires r != nil
+//@   modifies r.pos, r.failed, contents(p)
+//@   ensures 0 <= n && n <= len(p) && r.pos == old(r.pos) + n && r.pos <= r.end
+//@   ensures forall k in 0..n :: p[k] == r.in[old(r.pos) + k]
+//@   ensures forall k in n..len(p) :: p[k] == old(p[k])
+//@   ensures err != nil ==> r.failed
+//@   ensures err == nil ==> r.failed == old(r.failed)
+
+//@ contract (r *Reader) ReadFull(buf) (err) props(C01,C06,C07,C08,C17)
+//@   requires r != nil
+//@   modifies r.pos, r.failed, contents(buf)
+//@   ensures rdOK(r, err, len(buf))
+//@   ensures err == nil ==> forall k in 0..len(buf) :: buf[k] == r.in[old(r.pos) + k]
+
+//@ contract (r *Reader) readFull(n) (err) props(C01,C06,C07,C08,C17)
+//@   requires r != nil && 0 <= n
+//@   modifies r.pos, r.failed, r.b.Buf
+//@   ensures rdOK(r, err, n)
+//@   ensures err == nil ==> len(r.b.Buf) == n && forall k in 0..n :: r.b.Buf[k] == r.in[old(r.pos) + k]
+
+//@ contract (r *Reader) ReadRaw(n) (out, err) props(C01,C06,C07,C08)
+//@   requires r != nil && 0 <= n
+//@   modifies r.pos, r.failed, r.b.Buf
+//@   ensures rdOK(r, err, n)
+//@   ensures err == nil ==> len(out) == n && forall k in 0..n :: out[k] == r.in[old(r.pos) + k]
+
+//@ contract (r *Reader) ReadByte() (v, err) props(C07,C08)
+//@   requires r != nil
+//@   modifies r.pos, r.failed, r.b.Buf
+//@   ensures rdOK(r, err, 1)
+//@   ensures err == nil ==> v == r.in[old(r.pos)]
+
+//@ contract (r *Reader) UInt8() (v, err) props(C01,C06,C07,C08,C17)
+//@   requires r != nil
+//@   modifies r.pos, r.failed, r.b.Buf
+//@   ensures rdOK(r, err, 1)
+//@   ensures err == nil ==> v == r.in[old(r.pos)]
+//@ contract (r *Reader) Byte() (v, err) props(C01,C06,C07,C08,C17)
+//@   requires r != nil
+//@   modifies r.pos, r.failed, r.b.Buf
+//@   ensures rdOK(r, err, 1)
+//@   ensures err == nil ==> v == r.in[old(r.pos)]
+//@ contract (r *Reader) UInt16() (v, err) props(C01,C06,C07,C08,C17)
+//@   requires r != nil
+//@   modifies r.pos, r.failed, r.b.Buf
+//@   ensures rdOK(r, err, 2)
+//@   ensures err == nil ==> v == unle16(r.in[old(r.pos)], r.in[old(r.pos) + 1])
+//@ contract (r *Reader) UInt32() (v, err) props(C01,C06,C07,C08,C17)
+//@   requires r != nil
+//@   modifies r.pos, r.failed, r.b.Buf
+//@   ensures rdOK(r, err, 4)
+//@   ensures err == nil ==> v == unle32(r.in[old(r.pos)], r.in[old(r.pos) + 1], r.in[old(r.pos) + 2], r.in[old(r.pos) + 3])
+//@ contract (r *Reader) UInt64() (v, err) props(C01,C06,C07,C08,C17)
+//@   requires r != nil
+//@   modifies r.pos, r.failed, r.b.Buf
+//@   ensures rdOK(r, err, 8)
+//@   ensures err == nil ==> v == unle64(r.in[old(r.pos)], r.in[old(r.pos) + 1], r.in[old(r.pos) + 2], r.in[old(r.pos) + 3], r.in[old(r.pos) + 4], r.in[old(r.pos) + 5], r.in[old(r.pos) + 6], r.in[old(r.pos) + 7])
+//@ contract (r *Reader) Bool() (v, err) props(C01,C06,C07,C08,C17)
+//@   requires r != nil
+//@   modifies r.pos, r.failed, r.b.Buf
+//@   ensures (err == nil ==> r.pos == old(r.pos) + 1 && r.failed == old(r.failed)) && (r.failed && !old(r.failed) ==> err != nil) && old(r.pos) <= r.pos && r.pos <= r.end
+//@   ensures old(r.pos) + 1 > r.end ==> err != nil
+//@   ensures err == nil ==> (r.in[old(r.pos)] == 1 && v) || (r.in[old(r.pos)] == 0 && !v)
+
+//@ contract (r *Reader) UVarInt() (x, err) props(C01,C06,C07,C08,C17)
+//@   requires r != nil
+//@   modifies r.pos, r.failed
+//@   ensures rdOK(r, err, uvlen(r.in, old(r.pos)))
+//@   ensures err == nil ==> x == uvval(r.in, old(r.pos))
+//@ contract (r *Reader) Int() (x, err) props(C01,C06,C07,C08,C17)
+//@   requires r != nil
+//@   modifies r.pos, r.failed
+//@   ensures rdOK(r, err, uvlen(r.in, old(r.pos)))
+//@   ensures err == nil ==> x == i64(uvval(r.in, old(r.pos)))
+//@ contract (r *Reader) StrLen() (n, err) props(C01,C06,C07,C08,C17)
+//@   requires r != nil
+//@   modifies r.pos, r.failed
+//@   ensures (err == nil ==> r.pos == old(r.pos) + uvlen(r.in, old(r.pos)) && r.failed == old(r.failed)) && (r.failed && !old(r.failed) ==> err != nil) && old(r.pos) <= r.pos && r.pos <= r.end
+//@   ensures old(r.pos) + uvlen(r.in, old(r.pos)) > r.end ==> err != nil
+//@   ensures err == nil ==> n == i64(uvval(r.in, old(r.pos))) && 0 <= n
